@@ -37,7 +37,6 @@ func verifAssert(label string, c bool) {
 //@   ensures nonnil: hdr != nil ==> r0 != nil
 //@   ensures c01b_fields: hdr != nil ==> r0.ID == hdr.Id && r0.BlTxID == hdr.BlTxId && r0.Ts == hdr.Ts
 //@   &&   r0.Version == int(hdr.Version) && r0.NEntries == int(hdr.Nentries)
-//@   ensures c01b_def_alh: hdr != nil ==> r0.Alh() == Ghost_HdrAlh(hdr)
 //@   assigns nothing
 
 //@ func InclusionProofFromProto
